@@ -29,7 +29,7 @@ RULE = ('PEL = PH UH <section> MT; section kinds UD, ED, 9 hexdump-only types, 4
 ASSUMPTIONS = ['a parser returning JSON null or an empty string "returns nothing"']
 
 BEHS = ['obj', 'list', 'str', 'none', 'null', 'empty', 'raise', 'importerror', 'keyerror', 'import-raises',
-        'import-importerror', 'absent', 'badjson', 'num']
+        'import-importerror', 'import-missing-dependency', 'absent', 'badjson', 'num']
 BEH_CREATORS = ['O', 'B', 'x']
 CREATORS = ['B', 'C', 'H', 'K', 'L', 'M', 'O', 'P', 'S', 'T', 'x', '~']
 COMPS = [0x2000, 0x2C00, 0xE500, 0xABCD, 0x0000, 0xFFFF, 0x00AB]
@@ -137,9 +137,9 @@ def has_decoder(sec, creator, plugins, beh):
             return 'decoded'
         if beh == 'badjson':
             return None
-        if beh in ('none', 'raise', 'importerror', 'keyerror', 'import-raises'):
-            return 'raw+err'
-        return 'raw'      # null, empty, absent, import-importerror
+        if beh in ('none', 'raise', 'importerror', 'keyerror', 'import-raises', 'import-importerror', 'import-missing-dependency'):
+            return 'raw+err'    # the module is there and failed (while being loaded or when called)
+        return 'raw'      # null, empty, absent
     if cr == 'M' and comp == 0x2C00:
         return None if sub in (72, 73, 84) else 'raw'
     if cr == 'O' and comp == 0xE500:
